@@ -1,0 +1,15 @@
+//go:build verif
+
+package sugardb
+
+import (
+	"time"
+
+	"github.com/echovault/sugardb/internal/modules/pubsub"
+)
+
+// VerifPubSubQuiesce waits until the pubsub writer goroutines have written everything queued.
+func VerifPubSubQuiesce(timeout time.Duration) bool { return pubsub.VerifQuiesce(timeout) }
+
+// VerifPubSubPending returns the number of pubsub frames queued and not yet written.
+func VerifPubSubPending() int64 { return pubsub.VerifPending() }
